@@ -444,6 +444,53 @@ def build(run):
     run.function(_aed)
     run.add("attach_estimated_degrees/pre-existing-metadata", attach, kind="values")
 
+    # ---- element_replace_map: a coefficient / argument whose element is mapped to another element is estimated with the degree of the
+    # replacement (whole coefficient, contracted with a free index, fixed component)
+    def replace_map():
+        n = 0
+        holder = {}
+        k_exprs = 4
+        for k in range(k_exprs):
+            def mk():
+                d = [SymInt("d0"), SymInt("dr"), SymInt("d1")]
+                holder["d"] = d
+                return d
+
+            def fn(d0, dr, d1, k=k):
+                from ufv import symx
+                with shadow_int(ED):
+                    e0, er = elem(d0), elem(dr)
+                    ev0, evr = elem(d0, (2,)), elem(dr, (2,))
+                    f = ufl.Coefficient(ufl.FunctionSpace(tri, e0))
+                    w = ufl.Coefficient(ufl.FunctionSpace(tri, ev0))
+                    v = ufl.TestFunction(ufl.FunctionSpace(tri, elem(d1)))
+                    i_ = Index()
+                    ex = [f * v, f * f * v, w[i_] * w[i_] * v, w[1] * f * v][k]
+                    symx.ALLOW_TERM_HASH[0] = True
+                    try:
+                        return estimate_total_polynomial_degree(ex, element_replace_map={e0: er, ev0: evr})
+                    finally:
+                        symx.ALLOW_TERM_HASH[0] = False
+            paths, complete = explore(fn, mk)
+            if not complete:
+                return undecided("replace_map: path cap")
+            tr, t1 = z3.Int("dr"), z3.Int("d1")
+            spec = [tr + t1, 2 * tr + t1, 2 * tr + t1, 2 * tr + t1][k]
+            for p in paths:
+                if p.kind == "exc":
+                    return undecided(f"replace_map[{k}]: exception {type(p.value).__name__}: {p.value}")
+                st, model = prove(p.pc + nn(*holder["d"]), term(p.value) >= spec)
+                n += 1
+                if st == "refuted":
+                    return violated(f"estimate_total_polynomial_degree with element_replace_map, expression #{k} "
+                                    f"({['f*v', 'f*f*v', 'w_i w_i v', 'w[1] f v'][k]}): estimate {p.value!r} is below the degree {spec} of the expression on "
+                                    f"the replacement elements at {model} (d0: original degree, dr: replacement degree, d1: test function)",
+                                    replay={"model": model, "expr_index": k}, reproduced=True, backend="z3")
+                if st == "unknown":
+                    return undecided("replace_map: z3 unknown")
+        return proved("z3(path-exhaustive)", vcs=n, sample="estimate >= degree on the replacement elements for all (d0, dr, d1), whole / contracted / fixed components")
+    run.add("estimate_total_polynomial_degree/element_replace_map", replace_map, kind="values")
+
     # ---- canary
     def canary_make():
         e = est()
